@@ -146,6 +146,12 @@ const (
 	// table: its blocks do not run again, its state changes are not made again, the terminal
 	// failures inside it are not recorded again.
 	QLeaderReuse = "lr-leader-reuse"
+	// QRecoverNoScope (defect D40, repaired): the runtime opened no variable set for a recovery
+	// operator - labels bound in its guarded expression overwrote equally named labels of the
+	// enclosing scope - and ran a recovery expression with the variable set of the THROW SITE
+	// instead of the one of its operator. Kept as a model so that the repair can be reverted and
+	// the checks shown to see it.
+	QRecoverNoScope = "recover-no-scope"
 )
 
 type memoKey struct {
@@ -873,7 +879,7 @@ func (ip *Interp) evalInner(e *Expr, pos int, env map[string]any) (bool, int, an
 				continue
 			}
 			henv := h.env
-			if ip.O.DynamicRecoveryScope {
+			if ip.O.DynamicRecoveryScope || ip.O.Quirks[QRecoverNoScope] {
 				henv = env
 			}
 			ip.caught++
@@ -891,6 +897,11 @@ func (ip *Interp) evalInner(e *Expr, pos int, env map[string]any) (bool, int, an
 		}
 		return false, pos, nil
 	case KRecover:
+		// a recovery operator opens a label scope of its own (shared by the guarded and the
+		// recovery expression: the scope the builder gives their blocks, scope.go)
+		if !ip.O.Quirks[QRecoverNoScope] {
+			env = map[string]any{}
+		}
 		ip.handlers = append(ip.handlers, handler{e.FailLabels, e.Kids[1], env})
 		ok, end, v := ip.eval(e.Kids[0], pos, env)
 		ip.handlers = ip.handlers[:len(ip.handlers)-1]
